@@ -82,3 +82,31 @@ std::size_t utilities(std::size_t a, std::size_t b) {
   return n + utility::round_pow2(a) + utility::ipow(a, b) + MT3::calculate_index({a, b, a}) + MF2::calculate_index({a, b}) +
          H2::calculate_index({a, b}, utility::nd_size<2>{8, 8});
 }
+
+// layout / storage conversions between every pair of orderings (the copy routines of strided, morton and hilbert)
+template <typename To, typename From>
+float conv(const field<From> & f) {
+  field<To> g(f);
+  typename field<To>::view_t v(g);
+  auto && r = v.at(typename field<To>::coordinate_t{});
+  return static_cast<float>(r[0]);
+}
+#define CONV(To, From) template float conv<To, From>(const field<From> &);
+CONV(S2, MT2) CONV(S2, MF2) CONV(S2, H2) CONV(MT2, S2) CONV(MF2, S2) CONV(H2, S2) CONV(MT2, H2) CONV(H2, MF2) CONV(MT2, MF2)
+CONV(S3, MT3) CONV(S3, MF3) CONV(MT3, S3) CONV(MF3, S3) CONV(MT3, MF3) CONV(S2, S2)
+CONV(backend::linear<S2>, backend::linear<MT2>) CONV(backend::nearest_neighbour<MT3>, backend::nearest_neighbour<S3>)
+CONV(backend::affine<backend::linear<S3>>, backend::affine<backend::linear<MF3>>)
+using SD2 = backend::strided<vector::size2, AD>;
+using SF2 = backend::strided<vector::size2, backend::array<vector::float2>>;
+CONV(H2d, SD2) CONV(SD2, H2d)
+
+// positional construction, storage hand-over, cross-width load
+float build(std::iostream & s) {
+  field<S2> a(make_parameter_pack(S2::configuration_t{2, 3}));
+  field<backend::linear<S2>> b(make_parameter_pack(backend::linear<S2>::configuration_t{}, std::move(a.backend())));
+  field<SD2> d(make_parameter_pack(SD2::configuration_t{2, 3}));
+  d.dump(s);
+  field<SF2> e(s);
+  field<SF2>::view_t v(e);
+  return v.at(0u, 1u)[0] + field<backend::linear<S2>>::view_t(b).at(0.f, 0.f)[0];
+}
